@@ -87,6 +87,7 @@ func runC08(c *core.Ctx) {
 	c.RuleDoc("R08.6", "recursive removal classifies entries without following symbolic links")
 	c.RuleDoc("R08.7", "only SeekFile moves a file's position")
 	c.RuleDoc("R08.11", "a helper asks for the operation's own interface before MountFS")
+	c.RuleDoc("R08.13", "a helper delegates with the (file system, sub-path) pair of one Mount call per name (= R06.3)")
 	c.RuleDoc("R08.12", "Create's fallback uses os.Create's flags")
 	c.RuleDoc("R08.8", "OpenFile falls back to Open only for flag == FlagReadOnly")
 	c.RuleDoc("R08.10", "the fallback Sub view joins base and name with path.Join")
@@ -158,6 +159,8 @@ func runC08(c *core.Ctx) {
 		r08OpenFallback(c, p)
 		r08OwnCapabilityFirst(c, p, helpers)
 		r08CreateFlags(c, p)
+		// R08.13 (= R06.3): a helper resolves EACH name with its own Mount call and delegates with that call's pair
+		c.WithAlias(map[string]string{"R06.3": "R08.13"}, func() { r06Pairs(c, p) })
 		r08SubViewJoins(c, p, "R08.10")
 	}
 	c.Floor("R08.1", 40)
@@ -169,6 +172,7 @@ func runC08(c *core.Ctx) {
 	c.Floor("R08.8", 1)
 	c.Floor("R08.11", 10)
 	c.Floor("R08.12", 1)
+	c.Floor("R08.13", 15)
 	c.Floor("R08.10", 2)
 }
 
